@@ -113,6 +113,13 @@ func (s *State) assume(t *Term) {
 	if t.IsTrue() {
 		return
 	}
+	if len(s.facts) > 0 {
+		// simplifying with facts that are themselves consequences of the path condition is sound
+		t = s.simplify(t, 0)
+		if t.IsTrue() {
+			return
+		}
+	}
 	s.pc = append(s.pc, t)
 	s.learn(t)
 }
@@ -127,6 +134,14 @@ func (s *State) learn(t *Term) {
 		for _, a := range t.Args {
 			s.learn(a)
 		}
+	case "not":
+		if e := t.Args[0]; e.Kind == KApp && e.Op == "=" && len(e.Args) == 2 {
+			if s.facts == nil {
+				s.facts = map[string]*Term{}
+			}
+			s.facts["!distinct:"+e.Args[0].String()+"|"+e.Args[1].String()] = True
+			s.facts["!distinct:"+e.Args[1].String()+"|"+e.Args[0].String()] = True
+		}
 	case "=":
 		a, b := t.Args[0], t.Args[1]
 		if a.Kind == KLit && b.Kind != KLit {
@@ -137,41 +152,61 @@ func (s *State) learn(t *Term) {
 				s.facts = map[string]*Term{}
 			}
 			s.facts[a.String()] = b
+		} else if a.Kind == KVar && b.Kind != KVar && termSize(b, 60) < 60 {
+			// a fresh symbol (call result) defined by an equation: substitute its definition
+			if s.facts == nil {
+				s.facts = map[string]*Term{}
+			}
+			if _, dup := s.facts[a.String()]; !dup {
+				s.facts[a.String()] = b
+			}
+		} else if b.Kind == KVar && a.Kind != KVar && termSize(a, 60) < 60 {
+			if s.facts == nil {
+				s.facts = map[string]*Term{}
+			}
+			if _, dup := s.facts[b.String()]; !dup {
+				s.facts[b.String()] = a
+			}
 		}
 	}
 }
 
-// decide simplifies a branch condition using the recorded facts.
+// decide simplifies a branch condition using the recorded facts (equalities with literals and disequalities).
 func (s *State) decide(c *Term) *Term {
-	if len(s.facts) == 0 || c.Kind != KApp {
+	if len(s.facts) == 0 {
 		return c
 	}
-	switch c.Op {
-	case "=":
-		a, b := c.Args[0], c.Args[1]
-		if v, ok := s.facts[a.String()]; ok {
-			a = v
-		}
-		if v, ok := s.facts[b.String()]; ok {
-			b = v
-		}
-		return Eq(a, b)
-	case "not":
-		return Not(s.decide(c.Args[0]))
-	case "and":
-		var cs []*Term
-		for _, a := range c.Args {
-			cs = append(cs, s.decide(a))
-		}
-		return And(cs...)
-	case "or":
-		var cs []*Term
-		for _, a := range c.Args {
-			cs = append(cs, s.decide(a))
-		}
-		return Or(cs...)
+	return s.simplify(c, 0)
+}
+
+func (s *State) simplify(t *Term, depth int) *Term {
+	if depth > 40 || t.Kind == KLit || t.Kind == KQuant {
+		return t
 	}
-	return c
+	if v, ok := s.facts[t.String()]; ok {
+		return v
+	}
+	if t.Kind != KApp || len(t.Args) == 0 {
+		return t
+	}
+	args := make([]*Term, len(t.Args))
+	changed := false
+	for i, a := range t.Args {
+		args[i] = s.simplify(a, depth+1)
+		if args[i] != a {
+			changed = true
+		}
+	}
+	var out *Term = t
+	if changed {
+		out = rebuild(t, args)
+	}
+	if out.Kind == KApp && out.Op == "=" && len(out.Args) == 2 {
+		if s.facts["!distinct:"+out.Args[0].String()+"|"+out.Args[1].String()] != nil {
+			return False
+		}
+	}
+	return out
 }
 
 func (s *State) infeasible() bool {
@@ -289,6 +324,7 @@ type Run struct {
 	safe        bool
 	overflow    bool
 	retPaths    int
+	caseTag     string // current case split, for messages
 }
 
 type unsupportedErr struct{ msg string }
@@ -300,6 +336,9 @@ func (r *Run) unsup(format string, args ...any) {
 func (r *Run) note(a string) { r.assumptions[a] = true }
 
 func (r *Run) oblige(st *State, clause string, props []string, sub string, goal *Term) {
+	if r.caseTag != "" {
+		sub = strings.TrimSpace(sub + " " + r.caseTag)
+	}
 	o := &Oblig{Func: r.fname, Clause: clause, Props: props, Sub: sub, Goal: goal}
 	if goal.IsTrue() || st.infeasible() {
 		o.Trivial = true
